@@ -8,6 +8,7 @@ package types_test
 
 import (
 	"bytes"
+	"crypto/ecdsa"
 	"crypto/sha256"
 	"fmt"
 	"math/big"
@@ -63,12 +64,37 @@ func c23key(sym string) keypair.PublicKey {
 	default:
 		panic("bad key symbol " + sym)
 	}
+	if strings.HasSuffix(sym, "n") {
+		pk = c23negate(pk)
+	}
 	return pk
+}
+
+// c23negate: the negation (x, p-y) of an EC public key (x, y): a valid key of the same type on the same curve with the
+// same X; its compressed encoding differs from the original's only in the 02/03 prefix. Symbol: the key's symbol + "n".
+func c23negate(k keypair.PublicKey) keypair.PublicKey {
+	neg := func(pub *ecdsa.PublicKey) *ecdsa.PublicKey {
+		y := new(big.Int).Sub(pub.Curve.Params().P, pub.Y)
+		if !pub.Curve.IsOnCurve(pub.X, y) {
+			panic("negated key not on curve")
+		}
+		return &ecdsa.PublicKey{Curve: pub.Curve, X: new(big.Int).Set(pub.X), Y: y}
+	}
+	switch t := k.(type) {
+	case *ec.PublicKey:
+		return &ec.PublicKey{Algorithm: t.Algorithm, PublicKey: neg(t.PublicKey)}
+	case *ec.EthereumPublicKey:
+		return &ec.EthereumPublicKey{PublicKey: neg(t.PublicKey)}
+	}
+	panic("key kind has no negation")
 }
 
 // c23kinds: every kind of public key keypair.SerializePublicKey / DeserializePublicKey know (key type x curve label),
 // in the documented sort order: ECDSA over P-224, P-256, P-384, P-521, secp256k1; SM2; Ed25519; Ethereum (secp256k1).
 const c23kinds = "qpabcsek"
+
+// c23ecKinds: the kinds whose keys are curve points (every kind but Ed25519); these have a negation sharing their X.
+const c23ecKinds = "qpabcsk"
 
 var c23kindName = map[byte]string{'q': "ECDSA/P-224", 'p': "ECDSA/P-256", 'a': "ECDSA/P-384", 'b': "ECDSA/P-521", 'c': "ECDSA/secp256k1",
 	's': "SM2", 'e': "Ed25519", 'k': "Ethereum/secp256k1"}
@@ -678,6 +704,26 @@ func TestVerif_C23(t *testing.T) {
 				}
 			}
 		})
+	}
+	// (2c) keys that share their X coordinate: an EC key (x,y) together with its negation (x,p-y), for every EC kind, alone,
+	// with further keys of the kind, two such pairs, and next to a pair of another kind; every m, every permutation
+	for ki, kt := range c23ecKinds {
+		ot := c23ecKinds[(ki+1)%len(c23ecKinds)]
+		for _, tmpl := range [][]string{{"X0", "X0n"}, {"X0", "X0n", "X1"}, {"X0", "X1", "X1n"}, {"X0", "X0n", "X1", "X1n"}, {"X0", "X0n", "X1", "X2"}, {"X0", "X0n", "Y0", "Y0n"}} {
+			base := make([]string, len(tmpl))
+			for i, s := range tmpl {
+				base[i] = strings.Replace(strings.Replace(s, "X", string(kt), 1), "Y", string(ot), 1)
+			}
+			for m := 1; m <= len(base) && !r.Expired(); m++ {
+				if mine() {
+					before := r.R.NViolations
+					runSet(base, m)
+					if r.R.NViolations == before {
+						r.Class("multi:ok:same-x-pair:kind-" + string(kt))
+					}
+				}
+			}
+		}
 	}
 	if r.Thorough() {
 		n := c23MaxKeys
